@@ -9,6 +9,7 @@ crate) are inlined the same way.  Known functions are never inlined: they are th
 Bounded: depth <= 4, no recursion, callee <= 400 blocks.
 """
 import copy
+import re
 import json
 import os
 
@@ -52,6 +53,26 @@ def is_helper(body):
     import engine
     if body.kind == "Fn" and ("#" + engine._tail(body.name, 1)) in k:
         return False
+    # a reviewed function that moved to another type or became a free function / method (state split) keeps its role when it is
+    # the only function of the program that still carries the name and the reviewed one is gone
+    if not body.name.startswith("<") and "<impl " not in body.name:
+        t1 = engine._tail(body.name, 1)
+        prog = body.prog
+        moved = getattr(prog, "_moved_roles", None)
+        if moved is None:
+            by_last = {}
+            for n, b in prog.bodies.items():
+                if b.kind != "Closure" and not n.startswith("<") and "<impl " not in n:
+                    by_last.setdefault(engine._tail(n, 1), []).append(n)
+            known_last = {}
+            for n in k:
+                if not n.startswith(("~", "#", "<")) and "<impl " not in n:
+                    known_last.setdefault(engine._tail(n, 1), []).append(n)
+            moved = {last for last, ns in by_last.items() if len(ns) == 1 and len(known_last.get(last, [])) == 1
+                     and known_last[last][0] not in prog.bodies}
+            prog._moved_roles = moved
+        if t1 in moved:
+            return False
     return True
 
 
@@ -151,7 +172,7 @@ COMBINATORS = {
     "std::result::Result::<T, E>::is_err_and": "r_is_err_and",
     "std::result::Result::<T, E>::inspect_err": "r_inspect_err", "std::result::Result::<T, E>::inspect": "r_inspect",
     "std::option::Option::<T>::inspect": "o_inspect",
-    "std::bool::<impl bool>::then": "b_then",
+    "std::bool::<impl bool>::then": "b_then", "std::bool::<impl bool>::then_some": "b_then_some",
     "std::iter::Iterator::for_each": "i_for_each", "std::iter::Iterator::try_for_each": "i_try_for_each",
     "std::iter::Iterator::any": "i_any", "std::iter::Iterator::all": "i_all", "std::iter::Iterator::find": "i_find",
     "std::iter::Iterator::find_map": "i_find_map",
@@ -278,6 +299,16 @@ class Splicer:
         if tpl is None or t.get("t") is None or not t["args"]:
             return False
         args, atys, span, dest, exit_ = t["args"], t.get("arg_tys") or [], t["span"], t["dest"], t["t"]
+        if tpl == "b_then_some":
+            # `c.then_some(v)`: Some(v) on the true edge, None on the false edge (v is evaluated either way: it already is an operand)
+            if len(args) != 2 or t.get("t") is None:
+                return False
+            bt, bf = self.new_block(i, span), self.new_block(i, span)
+            self.switch_bool(i, args[0], bf, bt, span)
+            self.assign(bf, dest, self.agg(OPT, 0, []), span); self.goto(bf, exit_, span)
+            self.assign(bt, dest, self.agg(OPT, 1, [args[1]]), span); self.goto(bt, exit_, span)
+            self.changed = True
+            return True
         s = op_place_(args[0])
         if s is None:
             return False
@@ -561,6 +592,110 @@ def _map_places(blocks, f):
                 op(o)
 
 
+def split_tuples(j):
+    """scalar replacement of local tuples: `let t = (a, b); .. t.0 .. t.1 ..` with `t` only ever built from its parts and read field by field
+    (what `match (x, mode) { (Err(_), Mode::Clean) => .., (r, _) => r }` compiles to) becomes one local per field, so that moves,
+    borrows and discriminant reads of the parts are reads of ordinary locals.  Returns a rewritten copy of the body json, or None."""
+    blocks = j["blocks"]
+    nargs = j.get("arg_count", 0)
+    defs, whole_use, field_use = {}, set(), set()
+
+    def see(pl, is_def=False):
+        l = pl["l"]
+        if is_def and not pl["p"]:
+            return
+        if pl["p"] and pl["p"][0]["k"] == "field" and pl["p"][0].get("owner") == "(tuple)":
+            field_use.add(l)
+        else:
+            whole_use.add(l)
+        for e in pl["p"]:
+            if e["k"] == "index":
+                whole_use.add(e["l"])
+
+    def see_op(o):
+        if o is not None and o.get("k") in ("copy", "move"):
+            see(o["pl"])
+    for blk in blocks:
+        for st in blk["stmts"]:
+            if "lhs" in st:
+                if not st["lhs"]["p"]:
+                    defs.setdefault(st["lhs"]["l"], []).append(st)
+                else:
+                    see(st["lhs"], True)
+                    defs.setdefault(st["lhs"]["l"], []).append(None)
+            if st["k"] == "assign":
+                rv = st["rv"]
+                for key in ("op", "a", "b"):
+                    if isinstance(rv.get(key), dict):
+                        see_op(rv[key])
+                if "pl" in rv:
+                    see(rv["pl"])
+                for o in rv.get("ops", []):
+                    see_op(o)
+        t = blk["term"]
+        k = t["k"]
+        if k == "switch":
+            see_op(t["discr"])
+        elif k == "call":
+            for a in t["args"]:
+                see_op(a)
+            if t["dest"]["p"]:
+                see(t["dest"], True)
+            defs.setdefault(t["dest"]["l"], []).append(None)
+            if "callee_op" in t:
+                see_op(t["callee_op"])
+        elif k == "drop":
+            if not (blk.get("cleanup") and not t["pl"]["p"]):
+                see(t["pl"])        # (the unwind path drops the tuple as a whole: not part of the normal flow the rules look at)
+        elif k == "assert":
+            see_op(t["cond"])
+            for o in t.get("mops", []):
+                see_op(o)
+    cands = {}
+    for l, ds in defs.items():
+        if l <= nargs or l in whole_use or l not in field_use or not ds or any(d is None for d in ds):
+            continue
+        # every definition builds the tuple from its parts (one per match arm: `let (text, has_tail) = match step { .. }`)
+        if not all(d["k"] == "assign" and d["rv"]["k"] == "aggregate" and d["rv"]["agg"]["k"] == "tuple" for d in ds):
+            continue
+        if len({len(d["rv"]["ops"]) for d in ds}) != 1:
+            continue
+        cands[l] = len(ds[0]["rv"]["ops"])
+    if not cands:
+        return None
+    locals_ = list(j["locals"])
+    part = {}
+    for l, n in cands.items():
+        for i in range(n):
+            locals_.append({"ty": "_", "name": None, "syn": "tuple-part"})
+            part[(l, i)] = len(locals_) - 1
+    nb = copy.deepcopy(blocks)
+    # field types: taken from the first projection that mentions them
+    def f(pl):
+        if pl["l"] in cands and pl["p"] and pl["p"][0]["k"] == "field" and pl["p"][0].get("owner") == "(tuple)":
+            nl = part[(pl["l"], pl["p"][0]["i"])]
+            fty = pl["p"][0].get("fty")
+            if fty and locals_[nl]["ty"] == "_":
+                head = C._split_targs(fty)[0]
+                locals_[nl] = dict(locals_[nl], ty=fty, **({"adt": head} if re.match(r"^[A-Za-z_][A-Za-z_0-9]*(::[A-Za-z_][A-Za-z_0-9]*)+$", head) else {}))
+            return {"l": nl, "p": pl["p"][1:]}
+        return pl
+    _map_places(nb, f)
+    for blk in nb:
+        out = []
+        for st in blk["stmts"]:
+            if st["k"] == "assign" and not st["lhs"]["p"] and st["lhs"]["l"] in cands and st["rv"]["k"] == "aggregate":
+                for i, o in enumerate(st["rv"]["ops"]):
+                    out.append({"k": "assign", "lhs": {"l": part[(st["lhs"]["l"], i)], "p": []}, "rv": {"k": "use", "op": o}, "span": st["span"]})
+            else:
+                out.append(st)
+        blk["stmts"] = out
+    nj = dict(j)
+    nj["blocks"] = nb
+    nj["locals"] = locals_
+    return nj
+
+
 def resolve_borrows(j):
     """`let r = &mut x; .. *r ..`  ==>  `.. x ..` for references that are bound exactly once to a place of this body (a `&mut bool`
     handed to a spliced helper, a reborrow chain, a field of `*self`).  Purely a renaming of places: `(*r)` and `x` are the same
@@ -654,6 +789,9 @@ def inline_program(prog):
     for n, b in prog.bodies.items():
         nj, cons = inline_body(prog, b, helpers)
         consumed |= cons
+        tj = split_tuples(nj if nj is not None else b.j)
+        if tj is not None:
+            nj = tj
         rj = resolve_borrows(nj if nj is not None else b.j)
         if rj is not None:
             nj = rj
